@@ -29,6 +29,10 @@ CHECKS = {
             "deterministic simulation: state invariants + monotonicity monitor at lock-free instants"),
     "C10": ("exploration", "7.10", "component simulation of the public Cluster API: every operation checked against a single-copy model in lock-acquisition order (promotion result, stale writes rejected with files byte-identical, fresh writes accepted); role-owner monitor in world runs",
             "deterministic simulation: linearizability check against a single-copy reference model"),
+    "C11": ("fault_enumeration", "7.11", "pilot executions + one run per fault site of every submitter round (kill at every lock operation / external command / file mutation; sbatch, squeue, lock-acquisition and write failures at every such operation), quick: seeded sample of sites, thorough: all sites of each pilot, both lock behaviours, seeded continuations; oracles: no double submission / double launch / batch-id reuse, launch ordering, durability of result rows, normal progress after a transient squeue failure",
+            "deterministic simulation with fault injection: kill-point and error-site sweep over pilot executions + random multi-fault runs"),
+    "C12": ("fault_enumeration", "7.12", "seeded fault plans (sbatch failures of all kinds for drawn subsets of batches, node kills at seeded yield points of node process trees, walltime TIMEOUT, dependency cycles) followed by the documented recovery; accounting of the final results against SimSlurm / SimJobs ground truth",
+            "deterministic simulation with fault injection: lost-batch fault plans + conservation oracle vs ground truth"),
     "C16": ("exploration", "7.16", "hook commands recorded by the shell stub with env and sequence number; counts and ordering per submission / per batch, HPC and local",
             "deterministic simulation: ordering / exactly-once oracle on recorded hook commands"),
     "C18": ("exploration", "7.18", "script options compared field by field with the generated SlurmConfig at every sbatch (option names validated against sbatch's vocabulary); conservative status and bounded retries in world runs and component simulations",
@@ -43,7 +47,7 @@ NOT_APPLICABLE = [
     {"property_id": "C17", "reason": "pure function of one input evaluated by one sequential process: no schedule, clock, fault or second party for a simulator to control (DESIGN.md 7.17)"},
 ]
 
-PENDING = {p: "check not built yet in this session (planned, DESIGN.md section 7); no claim is made" for p in ("C11", "C12", "C13", "C14", "C15")}
+PENDING = {p: "check not built yet in this session (planned, DESIGN.md section 7); no claim is made" for p in ("C13", "C14", "C15")}
 
 
 def main():
